@@ -358,6 +358,7 @@ func (r *Run) writeEvidence() {
 //
 //	<bin> quick|thorough            parent: re-executes itself as a child, classifies crashes
 //	<bin> quick|thorough --child    child: runs fn, writes evidence, exits 0/1/2
+//
 // Options configure the parent-side post-processing of a check.
 type Options struct {
 	// StateRaceAnchors are regexps over shortened shisui function names
